@@ -173,8 +173,8 @@ class SegWorld(World):
         world = self
 
         async def validator(name, sig):
-            last = bytes(name[-1])
-            k = tlvref.dec_nni(last[2:]) if last[0] == tlvref.T_SEGMENT else 0
+            last = bytes(name[-1]) if len(name) else b''          # (an object may be named '/')
+            k = tlvref.dec_nni(last[2:]) if last and last[0] == tlvref.T_SEGMENT else 0
             world.log('validate', seg=k)
             return k not in invalid
         fetch_name = '/' + '/'.join(sc['prefix'])
@@ -458,7 +458,7 @@ def generate(rng, seed, tier='quick'):
 def _scenario(rng, seed, extra, nseg, discovery, loss, invalid, R, life, keys):
     return {'engine': 'segfetch', 'property': 'C19', 'seed': seed, **extra,
             'config': {'turn_cost_us': rng.choice([0, 0, 1]), 'wall_gran_us': 1000, 'debug_log': rng.random() < 0.1},
-            'prefix': rng.choice([['obj'], ['a', 'obj'], ['x', 'y', 'z']]), 'version': rng.choice([None, 'v1', 'v1']),
+            'prefix': rng.choice([['obj'], ['a', 'obj'], ['x', 'y', 'z'], ['obj'], ['a', 'obj'], ['x', 'y', 'z'], []]), 'version': rng.choice([None, 'v1', 'v1']),
             'nseg': nseg, 'sizes': [rng.choice([0, 1, 3, 10, 300]) for _ in range(max(nseg, 1))],
             'final_on': rng.choice(['last', 'all', 'all', 'early', 'first']) if nseg >= 2 else rng.choice(['last', 'all']),
             'discovery': discovery if nseg < 2 or rng.random() < 0.7 else 0, 'loss': loss, 'invalid': invalid,
